@@ -634,6 +634,36 @@ func cmdC01Rand(args []string) {
 				nowAllowed = append(nowAllowed, o)
 			}
 		}
+		if reuse && len(pats) >= 1 {
+			// the caller EDITS the list it passed before - one element overwritten in place, same slice, same length - and hands
+			// the very same Config value to Reconfigure again: the middleware must follow the new content
+			edited := cPattern{Scheme: "https", Host: fmt.Sprintf("edited-%d.example", lists)}
+			old0 := pats[0]
+			pats[0] = edited
+			cfg.Origins[0] = edited.String()
+			if err := live.Reconfigure(&cfg); err == nil {
+				t.emit(map[string]any{"ev": "Reset"})
+				for _, p := range pats {
+					t.emit(map[string]any{"ev": "Insert", "scheme": p.Scheme, "wild": p.Wild, "host": codes(p.Host), "port": p.Port})
+				}
+				var es []cOrigin
+				es = nearMisses(rng, edited, es)
+				es = nearMisses(rng, old0, es)
+				if len(es) > 60 {
+					es = es[:60]
+				}
+				nowAllowed = nowAllowed[:0]
+				for _, o := range es {
+					s := o.String()
+					act, pf := originAllowedByMiddleware(h, s)
+					t.emit(map[string]any{"ev": "Probe", "scheme": o.Scheme, "host": codes(o.Host), "port": o.Port, "acao": act, "pf": pf, "raw": s})
+					probes++
+					if act {
+						nowAllowed = append(nowAllowed, o)
+					}
+				}
+			}
+		}
 		if reuse { // what the LONG-LIVED middleware allowed under this list, most recent first
 			prevAllowed = prevAllowed[:0]
 			for i := len(nowAllowed) - 1; i >= 0 && len(prevAllowed) < 25; i-- {
